@@ -32,31 +32,66 @@ func c01R2(c *Ctx, r *Report) {
 	}
 	r.fn("Msg.packBufferWithCompressionMap")
 	r.fn("Msg.setHdr")
-	// pack: if dns.F { dh.Bits |= K }
+	// pack: a single header bit ORed into a 16-bit word in a block that is entered only when the flag field F was read
+	// true (`if dns.F { dh.Bits |= K }`, in the packer itself or in a helper it calls, whatever the word is kept in)
 	packBits := map[string]int64{}
 	packPos := map[string]token.Pos{}
-	ast.Inspect(packFd.Body, func(n ast.Node) bool {
-		ifs, ok := n.(*ast.IfStmt)
-		if !ok {
-			return true
+	if pf := c.ssaFunc("Msg.packBufferWithCompressionMap"); pf != nil {
+		seenF := map[*ssa.Function]bool{}
+		var visit func(f *ssa.Function, depth int)
+		visit = func(f *ssa.Function, depth int) {
+			if f == nil || seenF[f] || depth > 2 || len(f.Blocks) == 0 {
+				return
+			}
+			seenF[f] = true
+			allInstrs(f, func(in ssa.Instruction) {
+				if ci, ok := in.(ssa.CallInstruction); ok {
+					if g := ci.Common().StaticCallee(); g != nil && g.Pkg == f.Pkg && g.Signature.Recv() != nil && strings.Contains(g.Signature.Recv().Type().String(), "Msg") {
+						visit(g, depth+1)
+					}
+					return
+				}
+				bo, ok := in.(*ssa.BinOp)
+				if !ok || bo.Op != token.OR {
+					return
+				}
+				if b, isB := bo.Type().Underlying().(*types.Basic); !isB || b.Kind() != types.Uint16 {
+					return
+				}
+				k, isK := constIntOf(bo.Y)
+				if !isK {
+					k, isK = constIntOf(bo.X)
+				}
+				if !isK || k == 0 || k&(k-1) != 0 {
+					return
+				}
+				for _, ft := range factsAt(f, bo.Block()) {
+					if !ft.Holds {
+						continue
+					}
+					ld, isLd := ft.Atom.(*ssa.UnOp)
+					if !isLd || ld.Op != token.MUL {
+						continue
+					}
+					fa, isFa := ld.X.(*ssa.FieldAddr)
+					if !isFa {
+						continue
+					}
+					if b, isB := ld.Type().Underlying().(*types.Basic); !isB || b.Kind() != types.Bool {
+						continue
+					}
+					if nm := derefNamed(fa.X.Type()); nm == nil || (nm.Obj().Name() != "MsgHdr" && nm.Obj().Name() != "Msg") {
+						continue
+					}
+					name := fieldNameOf(fa)
+					// the innermost flag test decides: a bit ORed under two nested flag tests is attributed to both
+					packBits[name] |= k
+					packPos[name] = bo.Pos()
+				}
+			})
 		}
-		f := c.fieldOf(ifs.Cond)
-		if f == nil || len(ifs.Body.List) != 1 {
-			return true
-		}
-		as, ok := ifs.Body.List[0].(*ast.AssignStmt)
-		if !ok || as.Tok != token.OR_ASSIGN || len(as.Lhs) != 1 {
-			return true
-		}
-		if lf := c.fieldOf(as.Lhs[0]); lf == nil || lf.Name() != "Bits" {
-			return true
-		}
-		if k, ok := c.exprConst(as.Rhs[0]); ok {
-			packBits[f.Name()] |= k
-			packPos[f.Name()] = ifs.Pos()
-		}
-		return true
-	})
+		visit(pf, 0)
+	}
 	// setHdr: dns.F = dh.Bits&K != 0
 	setBits := map[string]int64{}
 	setPos := map[string]token.Pos{}
@@ -143,20 +178,56 @@ func c01R2(c *Ctx, r *Report) {
 			}
 			return 0, 0, false
 		}}
-		// the first store into dh.Bits (the one not depending on a previous load of dh.Bits)
-		var base *ssa.Store
-		for _, st := range storesToField(packFn, "Header", "Bits") {
-			if !anyIn(sliceOf(st.Val), func(v ssa.Value) bool {
-				u, ok := v.(*ssa.UnOp)
-				return ok && u.Op == token.MUL && readsField("Header", "Bits")(u.X)
-			}) {
-				base = st
+		// the value the header word starts from: the expression that combines opcode and rcode (in the packer or in a
+		// helper of Msg it calls), before any flag is ORed in
+		var base ssa.Instruction
+		var baseVal ssa.Value
+		{
+			seenF := map[*ssa.Function]bool{}
+			var visit func(f *ssa.Function, depth int)
+			visit = func(f *ssa.Function, depth int) {
+				if f == nil || seenF[f] || depth > 2 || len(f.Blocks) == 0 {
+					return
+				}
+				seenF[f] = true
+				allInstrs(f, func(in ssa.Instruction) {
+					if ci, ok := in.(ssa.CallInstruction); ok {
+						if g := ci.Common().StaticCallee(); g != nil && g.Pkg == f.Pkg && g.Signature.Recv() != nil && strings.Contains(g.Signature.Recv().Type().String(), "Msg") {
+							visit(g, depth+1)
+						}
+						return
+					}
+					bo, ok := in.(*ssa.BinOp)
+					if !ok || base != nil {
+						return
+					}
+					if b, isB := bo.Type().Underlying().(*types.Basic); !isB || b.Kind() != types.Uint16 {
+						return
+					}
+					sl := sliceOf(bo)
+					hasOp, hasRc, hasPhi := false, false, false
+					for o := range sl {
+						if isLoadOf("MsgHdr", "Opcode")(o) || isLoadOf("Msg", "Opcode")(o) {
+							hasOp = true
+						}
+						if isLoadOf("MsgHdr", "Rcode")(o) || isLoadOf("Msg", "Rcode")(o) {
+							hasRc = true
+						}
+						if _, isPhi := o.(*ssa.Phi); isPhi {
+							hasPhi = true
+						}
+					}
+					if hasOp && hasRc && !hasPhi {
+						base, baseVal = bo, bo
+					}
+				})
 			}
+			visit(packFn, 0)
 		}
 		if base == nil {
 			r.fail("C01.R2.opcode-rcode", "pack:Bits", c.pos(packFn.Pos()), "no initial store of opcode/rcode into the header word")
 		} else {
-			v := env.eval(base.Val)
+			v := env.eval(baseVal)
 			names := []string{"Opcode", "Rcode"}
 			okOp, okRc, okZero := true, true, true
 			for i := 0; i < 4; i++ {
@@ -219,6 +290,29 @@ func c01R2(c *Ctx, r *Report) {
 		}
 		r.fn(h.fn)
 		var order []string
+		// `for _, w := range [...]uint16{dh.Id, dh.Bits, ...}`: the loop variable stands for the listed fields in turn
+		ranged := map[types.Object][]string{}
+		ast.Inspect(fd.Body, func(n ast.Node) bool {
+			rs, ok := n.(*ast.RangeStmt)
+			if !ok {
+				return true
+			}
+			v, isId := rs.Value.(*ast.Ident)
+			cl, isCl := ast.Unparen(rs.X).(*ast.CompositeLit)
+			if !isId || !isCl {
+				return true
+			}
+			var names []string
+			for _, el := range cl.Elts {
+				if f := c.fieldOf(el); f != nil {
+					names = append(names, f.Name())
+				} else {
+					names = append(names, "?")
+				}
+			}
+			ranged[c.Info.Defs[v]] = names
+			return true
+		})
 		ast.Inspect(fd.Body, func(n ast.Node) bool {
 			as, ok := n.(*ast.AssignStmt)
 			if !ok || len(as.Rhs) != 1 {
@@ -234,7 +328,9 @@ func c01R2(c *Ctx, r *Report) {
 			} else {
 				fe = as.Lhs[0]
 			}
-			if f := c.fieldOf(fe); f != nil {
+			if id, isId := ast.Unparen(fe).(*ast.Ident); isId && ranged[c.Info.Uses[id]] != nil {
+				order = append(order, ranged[c.Info.Uses[id]]...)
+			} else if f := c.fieldOf(fe); f != nil {
 				order = append(order, f.Name())
 			} else {
 				order = append(order, "?")
